@@ -1114,6 +1114,20 @@ func (nd *KVNode) linearizableReadNotify(ctx context.Context) error {
 	}
 }
 
+const localReadBarrierTimeout = time.Second
+
+// isLocalStoreCurrent waits until the local store has applied every entry that was committed
+// when the call was made (raft ReadIndex barrier) and reports whether it got there in time.
+// Some write commands answer without proposing when the local store says they would change
+// nothing (SETNX on an existing key, SADD of members that exist, LPOP on an empty list ...). Any
+// replica accepts writes, and a replica that lags behind the log would take that decision on stale
+// data, so the shortcut is only taken behind this barrier; otherwise the command is proposed.
+func (nd *KVNode) isLocalStoreCurrent() bool {
+	ctx, cancel := context.WithTimeout(context.Background(), localReadBarrierTimeout)
+	defer cancel()
+	return nd.linearizableReadNotify(ctx) == nil
+}
+
 func (nd *KVNode) readIndexLoop() {
 	var rs raft.ReadState
 	to := time.Second * 5
